@@ -1,6 +1,9 @@
 import Driver.Util
 import GoMC.Model.Combinators
 import GoMC.Spec.Wire
+import GoMC.Model.PkNBTField
+import Driver.NBTCommon
+import Driver.GoValText
 namespace Driver.C06
 open GoMC GoMC.Model GoMC.Spec Driver
 
@@ -89,6 +92,25 @@ def svOfString (s : String) : Option SV :=
   | some (v, []) => some v
   | _ => none
 
+/-- a byte-string atom: parts joined by `+`, each hex or `r<count>x<hex>` (the hex repeated `count` times) -/
+def parseBytesExpr (s : String) : Option Bytes :=
+  if s == "-" then some [] else
+  (s.splitOn "+").foldlM (fun acc part =>
+    if part.startsWith "r" then
+      match (part.drop 1).toString.splitOn "x" with
+      | [n, h] => do
+        let n ← n.toNat?
+        let unit ← parseHex h
+        pure (acc ++ (List.replicate n unit).flatten)
+      | _ => none
+    else (parseHex part).map (acc ++ ·)) []
+
+/-- hex up to 2048 bytes, otherwise `#<len>.<FNV-1a 64>` (as the harness prints it) -/
+def hexS (bs : Bytes) : String :=
+  if bs.length ≤ 2048 then hexOfBytes bs else
+  let h : UInt64 := bs.foldl (fun h b => (h ^^^ (UInt64.ofNat b.toNat)) * 1099511628211) 14695981039346656037
+  s!"#{bs.length}.{hexOfNat 16 h.toNat}"
+
 def hexBV (w : Nat) (digits : Nat) (s : String) : Option (BitVec w) :=
   if s.length != digits then none else (parseHexNat s).map (BitVec.ofNat w)
 
@@ -100,7 +122,7 @@ def toAbs : (t : Ty) → SV → Option t.Abs
   | .short, .atom s | .ushort, .atom s => hexBV 16 4 s
   | .int, .atom s | .float, .atom s | .varint, .atom s => hexBV 32 8 s
   | .long, .atom s | .double, .atom s | .varlong, .atom s => hexBV 64 16 s
-  | .string, .atom s | .bytearray, .atom s | .pluginmsg, .atom s => parseHex s
+  | .string, .atom s | .bytearray, .atom s | .pluginmsg, .atom s => parseBytesExpr s
   | .position, .list [.atom x, .atom y, .atom z] => do
     let x ← hexBV 64 16 x; let y ← hexBV 64 16 y; let z ← hexBV 64 16 z
     pure (x, y, z)
@@ -131,7 +153,7 @@ def showAbs : (t : Ty) → t.Abs → String
   | .short, v | .ushort, v => hexOfNat 4 v.toNat
   | .int, v | .float, v | .varint, v => hexOfNat 8 v.toNat
   | .long, v | .double, v | .varlong, v => hexOfNat 16 v.toNat
-  | .string, v | .bytearray, v | .pluginmsg, v => hexOfBytes v
+  | .string, v | .bytearray, v | .pluginmsg, v => hexS v
   | .position, (x, y, z) => joinComma [hexOfNat 16 x.toNat, hexOfNat 16 y.toNat, hexOfNat 16 z.toNat]
   | .uuid, v => hexOfNat 32 v.toNat
   | .bitset, xs => joinComma (xs.map fun x => hexOfNat 16 x.toNat)
@@ -163,7 +185,7 @@ def specRT (t : Ty) (a : t.Abs) (trail : Bytes) : Option String :=
   if !inDomB t a then none else
   if !t.regular && !trail.isEmpty then none else
   let w := wire t a
-  some s!"ok w={hexOfBytes w} wn={w.length} rn={w.length + (if t.regular then 0 else trail.length)} left={if t.regular then trail.length else 0} v="
+  some s!"ok w={hexS w} wn={w.length} rn={w.length + (if t.regular then 0 else trail.length)} left={if t.regular then trail.length else 0} v="
 
 def rt (tyS valS modeS trailS obs : String) : Verdict :=
   match tyOfString tyS, svOfString valS, parseHex trailS with
@@ -175,9 +197,9 @@ def rt (tyS valS modeS trailS obs : String) : Verdict :=
       let (w, wn) := (codec t).enc v
       let d := (codec t).dec (prior (natArg modeS) t v) (Stream.ofBytes (w ++ trail))
       let model := match showDecode t d with
-        | "err" => s!"rerr w={hexOfBytes w} wn={wn}"
+        | "err" => s!"rerr w={hexS w} wn={wn}"
         | "panic" => "panic"
-        | s => s!"ok w={hexOfBytes w} wn={wn} {(s.drop 3).toString}"
+        | s => s!"ok w={hexS w} wn={wn} {(s.drop 3).toString}"
       let spec : Option String :=
         if obs == "panic" then some "panic on a value round trip" else
         match specRT t a trail with
@@ -232,13 +254,13 @@ def pkt (tyS valS modeS variantS trailS obs : String) : Verdict :=
       let w := marshal t v
       let id := natArg variantS * 7 + 1
       let model := match scan t (prior (natArg modeS) t v) (w ++ trail) with
-        | .ok x => s!"ok id={id} w={hexOfBytes w} v={showAbs t (abs t x)}"
-        | .err => s!"serr w={hexOfBytes w}"
+        | .ok x => s!"ok id={id} w={hexS w} v={showAbs t (abs t x)}"
+        | .err => s!"serr w={hexS w}"
         | .panic => "panic"
       let spec : Option String :=
         if obs == "panic" then some "panic in Marshal/Scan" else
         if !inDomB t a || (!t.regular && !trail.isEmpty) then none else
-        let want := s!"ok id={id} w={hexOfBytes (wire t a)} v={showAbs t a}"
+        let want := s!"ok id={id} w={hexS (wire t a)} v={showAbs t a}"
         if obs == want then none else some s!"expected {want}"
       { model, spec }
   | _, _, _ => { model := "bad-arg" }
@@ -261,6 +283,213 @@ def nbt (name obs : String) : Verdict :=
     let want := s!"ok w={w} wn={n} rn={n} left=2 v={v}"
     { model := want, spec := if obs == want then none else some s!"expected {want}" }
 
+
+/-! ### NBTField on generated documents (op `nbt.fld`) -/
+
+namespace Fld
+open GoMC.Model.Go GoMC.Model.NBTF Driver.NBT
+
+def ascii (s : String) : Bytes := s.toUTF8.toList.map fun (b : UInt8) => BitVec.ofNat 8 b.toNat
+
+def cx : SnbtCarrier := Driver.GoText.snbtCarrier
+
+/-- `map[string]any` -/
+def mapAnyT : GoType := .map .iface
+
+/-- the harness's `nbtFix1`: A int32 `nbt:"a"`; Bee string; X RawMessage `nbt:"x"`; M map[string]any `nbt:"m"`; Z struct{} `nbt:"z"` -/
+def fix1T : GoType := .struct (ascii "nbtFix1") [
+  ({ name := ascii "A", anonymous := false, exported := true, nbt := ascii "a" }, .int .i32),
+  ({ name := ascii "Bee", anonymous := false, exported := true }, .str),
+  ({ name := ascii "X", anonymous := false, exported := true, nbt := ascii "x" }, .raw),
+  ({ name := ascii "M", anonymous := false, exported := true, nbt := ascii "m" }, mapAnyT),
+  ({ name := ascii "Z", anonymous := false, exported := true, nbt := ascii "z" }, .struct [] [])]
+
+def tyOf : String → Option GoType
+  | "any" => some .iface | "map" => some mapAnyT | "raw" => some .raw | "dyn" => some .dyn
+  | "fix1" => some fix1T | "skip" => some (.struct [] [])
+  | _ => none
+
+def boxed (v : GoVal) : GoVal := .iface (some v)
+
+/-- the prior destination states the harness prepares (`nbtDst`) -/
+def priorOf (target : String) (prior : Nat) (ty : GoType) : GoVal :=
+  match target, prior with
+  | "any", 1 => boxed (.int .i32 7)
+  | "any", 2 => boxed (.map .iface false [(ascii "old", boxed (.int .i8 1))])
+  | "any", 3 => boxed (.str (ascii "old"))
+  | "map", 1 => .map .iface false []
+  | "map", 2 => .map .iface false [(ascii "old", boxed (.int .i8 1)), (ascii "a", boxed (.str (ascii "x")))]
+  | "raw", 1 => .raw 3#8 [0#8, 0#8, 0#8, 9#8]
+  | "raw", 2 => .raw 10#8 (List.replicate 40 0x55#8)
+  | "fix1", 1 => match fix1T with
+    | .struct n fields => .struct n fields [.int .i32 99, .str (ascii "old"), .raw 3#8 [0#8, 0#8, 0#8, 9#8],
+        .map .iface false [(ascii "old", boxed (.int .i8 1))], .struct [] [] []]
+    | _ => ty.zero
+  | _, _ => ty.zero      -- (a used dynbt.Value: its old content is never looked at)
+
+/-- the harness's `nbtFix3`: A int32 `nbt:"a,omitempty"`; B string `nbt:"b"` -/
+def fix3T : GoType := .struct (ascii "nbtFix3") [
+  ({ name := ascii "A", anonymous := false, exported := true, nbt := ascii "a,omitempty" }, .int .i32),
+  ({ name := ascii "B", anonymous := false, exported := true, nbt := ascii "b" }, .str)]
+
+def fix3 (a : Int) (b : String) : GoVal :=
+  match fix3T with
+  | .struct n fields => .struct n fields [.int .i32 a, .str (ascii b)]
+  | _ => .iface none
+
+def twos (bits : Nat) (v : Int) : Nat := (v % (2 ^ bits : Int)).toNat
+
+/-- Go values printed as the harness prints them (`nbtCanonAny`, `nbtCanonMap`, `nbtCanonRaw`, `nbtCanonFix1`) -/
+partial def showGo : GoVal → String
+  | .iface none => "nil"
+  | .iface (some v) => showGo v
+  | .int .i8 v => "b" ++ hexOfNat 2 (twos 8 v)
+  | .int .i16 v => "s" ++ hexOfNat 4 (twos 16 v)
+  | .int .i32 v => "i" ++ hexOfNat 8 (twos 32 v)
+  | .int .i64 v => "l" ++ hexOfNat 16 (twos 64 v)
+  | .int _ v => "?int" ++ toString v
+  | .f32 b => "f" ++ hexOfNat 8 b.toNat
+  | .f64 b => "d" ++ hexOfNat 16 b.toNat
+  | .str s => "S(" ++ hexPlain s ++ ")"
+  | .slice (.int .u8) _ xs => "B(" ++ String.join (xs.map fun | .int _ v => hexOfNat 2 (twos 8 v) | _ => "??") ++ ")"
+  | .slice (.int .i32) _ xs => "I(" ++ String.join (xs.map fun | .int _ v => hexOfNat 8 (twos 32 v) | _ => "??") ++ ")"
+  | .slice (.int .i64) _ xs => "L(" ++ String.join (xs.map fun | .int _ v => hexOfNat 16 (twos 64 v) | _ => "??") ++ ")"
+  | .slice _ _ xs => "A[" ++ joinWith "," (xs.map showGo) ++ "]"
+  | .map _ _ kvs => "M{" ++ joinWith "," ((sortKvs kvs).map fun (k, v) => hexPlain k ++ ":" ++ showGo v) ++ "}"
+  | .raw t d => "R" ++ hexOfNat 2 t.toNat ++ "(" ++ hexPlain d ++ ")"
+  | .dyn d => "D" ++ hexOfNat 2 d.tag.toNat ++ "(" ++
+      (if d.tag = 0#8 then "" else match Model.DynBT.marshal d with | .ok b => hexPlain b | _ => "!err") ++ ")"
+  | .struct _ fields fs => "T{" ++ joinWith ","
+      ((fields.zip fs).map fun ((info, _), v) => hexPlain (if info.nbt.isEmpty then info.name else info.nbt) ++ ":" ++ showGo v) ++ "}"
+  | _ => "?"
+
+/-- the fresh-destination value the property demands, printed; `none`: the tree does not fit the destination -/
+def specShow (target : String) (allow : Bool) (t : NBT) : Option String :=
+  match target with
+  | "dyn" => some ("D" ++ hexOfNat 2 t.tag.toNat ++ "(" ++ hexPlain (encPayload t) ++ ")")
+  | "skip" => specValue (if allow then "skip" else "disallow") t
+  | d => specValue d t
+
+def zeroShow (target : String) : String :=
+  match target with
+  | "any" => "nil" | "map" => "M{}" | "raw" => "R00()" | "dyn" => "D00()" | "skip" => "T{}"
+  | _ => showFix1 {}
+
+def markerOf : String → List String
+  | "any" => ["C06.nbt-any-keeps-dynamic-type"]
+  | "map" => ["C06.nbt-map-merges"]
+  | "fix1" => ["C06.nbt-map-merges"]        -- with every field present only the map field `m` can keep old entries
+  | _ => []
+
+def fld (target priorS allowS wrap docS trailS obs : String) : Verdict :=
+  match tyOf target, parseHex docS, parseHex trailS with
+  | some ty, some doc, some trail =>
+    let allow := allowS == "1"
+    let prior := natArg priorS
+    let old := priorOf target prior ty
+    let toks := obs.splitOn " "
+    let an := (kv toks "an").getD "-"
+    let al := (kv toks "al").getD "-"
+    let cell : Cell := { wire := doc, dst := old }
+    let c := cellC cx allow ty
+    -- the model: the generic combinators around the NBT cell (`Go.fieldRead`)
+    let (w, wn, res) : Bytes × Nat × (Res (String × Nat) × Stream) :=
+      match wrap with
+      | "tuple" =>
+        let cc := pairC varIntC (pairC c (pairC byteC unitC))
+        let (w, wn) := cc.enc (300#32, cell, 0x7f#8, ())
+        let r := cc.dec (0xffffffff#32, cell, 1#8, ()) (Stream.ofBytes (w ++ trail))
+        (w, wn, (r.1.map fun (d, n) => (joinComma [hexOfNat 8 d.1.toNat, showGo d.2.1.dst, hexOfNat 2 d.2.2.1.toNat], n), r.2))
+      | "option" =>
+        let cc := optionC c
+        let (w, wn) := cc.enc (true, cell)
+        let r := cc.dec (prior % 2 == 1, cell) (Stream.ofBytes (w ++ trail))
+        (w, wn, (r.1.map fun (d, n) => ((if d.1 then joinComma [showGo d.2.dst] else "()"), n), r.2))
+      | "ary" =>
+        let cc := aryC .varint c
+        let (w, wn) := cc.enc { elems := [cell, cell] }
+        let r := cc.dec { elems := [cell, cell] } (Stream.ofBytes (w ++ trail))
+        (w, wn, (r.1.map fun (d, n) => (joinComma (d.elems.map fun x => showGo x.dst), n), r.2))
+      | _ =>
+        let (w, wn) := c.enc cell
+        let r := c.dec cell (Stream.ofBytes (w ++ trail))
+        (w, wn, (r.1.map fun (d, n) => (showGo d.dst, n), r.2))
+    let model := match res with
+      | (.ok (v, n), s) => s!"ok w={hexS w} wn={wn} an={an} al={al} rn={n} left={s.flat.length} v={v}"
+      | (.err, _) => s!"rerr w={hexS w} wn={wn} an={an} al={al}"
+      | (.panic, _) => "panic"
+    -- the oracle: the NBT format's own reader on the document, the wrappers' layout written out by hand
+    let isOk := obs.startsWith "ok "
+    let spec : Option String :=
+      if obs == "panic" then some "NBTField panicked" else
+      if an != al then some "WriteTo of the decoded value returned a count different from the bytes produced" else
+      let wrapOf := fun (d : Bytes) => match wrap with
+        | "tuple" => [0xac#8, 0x02#8] ++ d ++ [0x7f#8]
+        | "option" => 0x01#8 :: d
+        | "ary" => 0x02#8 :: d ++ d
+        | _ => d
+      let showWrap := fun (v : String) => match wrap with
+        | "tuple" => joinComma ["0000012c", v, "7f"]
+        | "option" => joinComma [v]
+        | "ary" => joinComma [v, v]
+        | _ => v
+      let expect := fun (v : String) (extra : Nat) =>
+        let ww := wrapOf doc
+        s!"ok w={hexS ww} wn={ww.length} an={an} al={al} rn={ww.length - extra} left={trail.length + extra} v={showWrap v}"
+      if doc == [0#8] then
+        let want := expect (zeroShow target) 0
+        if obs == want then none else some s!"absent value: expected {want}"
+      else match parseDoc .network (if wrap == "plain" then doc ++ trail else doc) with
+        | none => if isOk then some "ill-formed or truncated document reported as read" else none
+        | some (_, t, rest) =>
+          if hasLongString t then none else
+          if wrap != "plain" && !rest.isEmpty then none else
+          let extra := if wrap == "plain" then rest.length - trail.length else 0
+          -- a struct destination holding old values: only a document carrying every field can be what a
+          -- write of that struct type produced; other documents say nothing about the fields they lack
+          let complete := match t with
+            | .compound kvs => ["a", "Bee", "x", "m", "z"].all fun k => kvs.any fun e => e.1 == ascii k
+            | _ => false
+          if target == "fix1" && prior != 0 && !complete then none else
+          match specShow target allow t with
+          | none => if isOk then some "document does not fit the destination but was reported as read" else none
+          | some v =>
+            let want := expect v extra
+            if obs == want then none
+            else if isOk || (target != "fix1" || allow) then some ("well-formed document: expected " ++ (want.take 300).toString)
+            else none      -- fix1 with DisallowUnknownFields may refuse unknown keys
+    { model, spec, markers := if prior != 0 && spec.isSome then markerOf target else [] }
+  | _, _, _ => { model := "bad-arg" }
+
+/-- `nbt.omit`: a struct with an omitempty field written and read back. What was written is known here (the struct
+value), so the demand is the property's own: the value read back equals it, whatever the destination held. -/
+def omitField (priorS aS obs : String) : Verdict :=
+  match parseHexNat aS with
+  | none => { model := "bad-arg" }
+  | some an =>
+    let a : Int := (BitVec.ofNat 32 an).toInt
+    let prior := natArg priorS
+    let old := if prior == 1 then fix3 99 "old" else fix3T.zero
+    let showF := fun (v : GoVal) => match v with
+      | .struct _ _ [.int _ x, .str s] => "T{61:i" ++ hexOfNat 8 (twos 32 x) ++ ",62:S(" ++ hexPlain s ++ ")}"
+      | _ => "?"
+    match fieldWrite cx (some (fix3 a "x")) with
+    | .ok (w, wn) =>
+      let r := fieldRead cx false fix3T old (Stream.ofBytes w)
+      let model := match r with
+        | (.ok (v, n), s) => s!"ok w={hexS w} wn={wn} rn={n} left={s.flat.length} v={showF v}"
+        | (.err, _) => s!"rerr w={hexS w} wn={wn}"
+        | (.panic, _) => "panic"
+      -- spec: the layout written out by hand — compound, [Int "a" a unless a = 0], String "b" = "x", End
+      let doc : Bytes := [0x0a#8] ++ (if a == 0 then [] else [0x03#8, 0#8, 1#8, 0x61#8] ++ be 4 (twos 32 a))
+        ++ [0x08#8, 0#8, 1#8, 0x62#8, 0#8, 1#8, 0x78#8, 0#8]
+      let want := s!"ok w={hexS doc} wn={doc.length} rn={doc.length} left=0 v={showF (fix3 a "x")}"
+      let spec := if obs == want then none else some s!"expected {want}"
+      { model, spec, markers := if prior != 0 && spec.isSome then ["C06.nbt-struct-keeps-missing-fields"] else [] }
+    | _ => { model := "werr" }
+
+end Fld
+
 def handle (op : String) (args : List String) (obs : String) : Option Verdict :=
   match op, args with
   | "fld.rt", [t, v, m, _, tr] => some (rt t v m tr obs)
@@ -268,6 +497,8 @@ def handle (op : String) (args : List String) (obs : String) : Option Verdict :=
   | "fld.dec", [t, h, m, _] => some (dec t h m obs)
   | "pkt.rt", [t, v, m, va, tr] => some (pkt t v m va tr obs)
   | "nbt.rt", [n] => some (nbt n obs)
+  | "nbt.fld", [t, p, a, w, _, d, tr] => some (Fld.fld t p a w d tr obs)
+  | "nbt.omit", [p, a] => some (Fld.omitField p a obs)
   | "c06.crash", [_] => some { model := "finished", spec := some "the harness child died (out of memory / fatal error) while running the real code on generated compositions" }
   | _, _ => none
 
